@@ -3886,29 +3886,40 @@ let normal t =
 let dz k =
   if Z.ltb Z0 k then append ('+'::[]) (string_of_Z k) else string_of_Z k
 
-(** val didx : pidx -> char list **)
+type layout = char list -> pidx -> (char list * char list) * bool
 
-let didx = function
-| IInt k -> dz k
+(** val canon : layout **)
+
+let canon _ _ =
+  (([], []), true)
+
+(** val ibody : bool -> pidx -> char list **)
+
+let ibody plus = function
+| IInt k -> if plus then dz k else string_of_Z k
 | IStr s -> s
 
-(** val dtext : ntok -> char list **)
+(** val dtext : layout -> ntok -> char list **)
 
-let dtext x = match x with
+let dtext lay x = match x with
 | NTerm (name, i) ->
-  append name (append ('['::[]) (append (didx i) (']'::[])))
+  let (p, plus) = lay name i in
+  let (w1, w2) = p in
+  append name
+    (append ('['::[])
+      (append w1 (append (ibody plus i) (append w2 (']'::[])))))
 | _ -> ntok_text x
 
-(** val dflat : ntok list -> char list **)
+(** val dflat : layout -> ntok list -> char list **)
 
-let rec dflat = function
+let rec dflat lay = function
 | [] -> []
-| x :: r -> append (dtext x) (dflat r)
+| x :: r -> append (dtext lay x) (dflat lay r)
 
-(** val denorm_text : neq -> char list **)
+(** val denorm_text : layout -> neq -> char list **)
 
-let denorm_text q =
-  append (dflat q.nlhs) (append ('='::[]) (dflat q.nrhs))
+let denorm_text lay q =
+  append (dflat lay q.nlhs) (append ('='::[]) (dflat lay q.nrhs))
 
 (** val tok_term : ptype -> ntok -> term option **)
 
@@ -3952,25 +3963,31 @@ let rec ttemplate = function
    | NChr c -> c::(ttemplate r)
    | _ -> append ('{'::('}'::[])) (ttemplate r))
 
-(** val dtok_ok : bool -> ntok -> char list -> bool **)
+(** val dtok_ok : layout -> bool -> ntok -> char list -> bool **)
 
-let dtok_ok pw x rest =
+let dtok_ok lay pw x rest =
   match x with
   | NTerm (name, i) ->
-    (&&) ((&&) ((&&) (is_ident name) (kw_free name)) (idx_ok (didx i)))
+    let (p, plus) = lay name i in
+    let (w1, w2) = p in
+    (&&)
+      ((&&)
+        ((&&)
+          ((&&) ((&&) (is_ident name) (kw_free name)) (idx_ok (ibody plus i)))
+          (all_chars is_space w1)) (all_chars is_space w2))
       (match i with
        | IInt k -> negb (Nat.ltb int_max_str_digits (count_digits (dz k)))
        | IStr s -> (||) (quoted_by '\'' s) (quoted_by '"' s))
   | _ -> ntok_ok pw x rest
 
-(** val dwf_k : bool -> ntok list -> char list -> bool **)
+(** val dwf_k : layout -> bool -> ntok list -> char list -> bool **)
 
-let rec dwf_k pw l k =
+let rec dwf_k lay pw l k =
   match l with
   | [] -> true
   | x :: r ->
-    (&&) (dtok_ok pw x (append (dflat r) k))
-      (dwf_k (last_word pw (dtext x)) r k)
+    (&&) (dtok_ok lay pw x (append (dflat lay r) k))
+      (dwf_k lay (last_word pw (dtext lay x)) r k)
 
 (** val text_char_ok : char -> bool **)
 
@@ -3979,9 +3996,9 @@ let text_char_ok c =
     ((&&) ((&&) (negb (is_linesep c)) (negb ((=) c '#'))) (negb ((=) c '{')))
     (negb ((=) c '}'))
 
-(** val dq_ok : neq -> bool **)
+(** val dq_ok : layout -> neq -> bool **)
 
-let dq_ok q =
+let dq_ok lay q =
   match q.nlhs with
   | [] -> false
   | n0 :: ws ->
@@ -3994,15 +4011,23 @@ let dq_ok q =
               ((&&)
                 ((&&)
                   ((&&)
-                    ((&&) ((&&) (is_ident y) (kw_free y))
-                      (negb
-                        (Nat.ltb int_max_str_digits (count_digits (dz ky)))))
+                    ((&&)
+                      ((&&) ((&&) (is_ident y) (kw_free y))
+                        (negb
+                          (Nat.ltb int_max_str_digits (count_digits (dz ky)))))
+                      (let (p, _) = lay y (IInt ky) in
+                       let (w1, w2) = p in
+                       (match w1 with
+                        | [] -> (match w2 with
+                                 | [] -> true
+                                 | _::_ -> false)
+                        | _::_ -> false)))
                     (forallb (fun x ->
                       match x with
                       | NChr c -> is_space c
-                      | _ -> false) ws)) (dwf_k false q.nrhs []))
-                (all_chars text_char_ok (denorm_text q)))
-              (match count_parens O (denorm_text q) with
+                      | _ -> false) ws)) (dwf_k lay false q.nrhs []))
+                (all_chars text_char_ok (denorm_text lay q)))
+              (match count_parens O (denorm_text lay q) with
                | Some n1 -> (match n1 with
                              | O -> true
                              | S _ -> false)
@@ -4010,3 +4035,13 @@ let dq_ok q =
             (normal (ttemplate (app q.nlhs ((NChr '=') :: q.nrhs))))
         | IStr _ -> false)
      | _ -> false)
+
+(** val dq_ok_canon : neq -> bool **)
+
+let dq_ok_canon q =
+  dq_ok canon q
+
+(** val denorm_canon : neq -> char list **)
+
+let denorm_canon q =
+  denorm_text canon q
